@@ -316,7 +316,10 @@ func UpdateCheckpoint(outCli client.Redis, localCheckpoint string, ids []string)
 				return err
 			}
 			if dbid < 0 {
+				// no run id was found with it: whatever offset was seen is not a position
+				// (it is not known which history, nor reliably which database, it belongs to)
 				dbid = 0
+				cpKv.Offset = -1
 			}
 		}
 
